@@ -101,7 +101,7 @@ def run(ctx):
     ctx.extra["id_base"] = id_base(ctx)
     ctx.rule = ("cases = static families of AnnotateChange.tla (Singles: one modified/deleted element of each kind, versions 1..4, "
                 "against every stored order of every subset of 1..HMax and against no history, both ignore-missing settings, option sets "
-                "and id tables rotated; Pairs: two elements in every pair of cells x every shape; Houses; Failing and Faulty (fault-injecting datasource: non-not-found and own not-found errors for chosen (kind, id)); Optioned: all 36 "
+                "and id tables rotated; Pairs: two elements in every pair of cells x every shape; Houses; Failing and Faulty (fault-injecting datasource: non-not-found and own not-found errors for chosen (kind, id)); Timestamps: 7 orderings of timestamps vs versions (all static cases are stamped with a rotated time mode); Optioned: all 36 "
                 "settings of the other options x missing/present predecessor; IdTables: concrete ids 0 / 2^40-1 / negative as first and "
                 "later element of every pair of update cells) enumerated completely by TLC (%s) + seeded random draws of the full product "
                 "space; distinct = distinct abstract cases; non-trivial = at least one modified or deleted element"
